@@ -111,7 +111,7 @@ class Program:
             except SyntaxError as e:  # the build would fail too
                 raise AnalysisError(f"cannot parse {rel}: {e}")
             from .desugar import desugar
-            desugar(tree)               # match -> if-chains, leading walrus hoisted: one statement vocabulary for the rules
+            desugar(tree, rel)          # match -> if-chains, leading walrus hoisted: one statement vocabulary for the rules
             _set_parents(tree)
             modname = rel[len("src/"):-3].replace("/", ".")
             if modname.endswith(".__init__"):
